@@ -424,6 +424,16 @@ func genLeaseLong(t *rapid.T, p *Program) {
 		p.NoPreVote[i] = false
 	}
 	total := oneOf(t, "seconds", 60, 60, 120, 300, 600)
+	if rapid.IntRange(0, 2).Draw(t, "shortLease") == 0 {
+		// a lease well below the heartbeat interval (legitimate: >= 5 ms and <= HeartbeatTimeout):
+		// between two heartbeats (10-20 ms apart here) the leader hears from its followers only
+		// through the answers to the replication routine's idle probes, every CommitTimeout (5-10 ms)
+		for i := range p.HBms {
+			p.HBms[i] = 100
+		}
+		p.LeaseDiv = 8
+		total = oneOf(t, "secondsS", 60, 120)
+	}
 	p.Actions = append(p.Actions, Action{Op: "tick", Dt: 1000})
 	traffic := rapid.Bool().Draw(t, "traffic")
 	chunks := 20
